@@ -74,6 +74,8 @@ def cases(tier, rng):
         yield (scenario([0, 2, 4], [0], cfg, steps), 'gamepads')
     for x in extra_cases(tier, rng):
         yield x
+    for x in mouse_combo_cases(tier, rng):
+        yield x
 
 def extra_cases(tier, rng):
     # (a) a context created while only part of a combination is down: the combination is not active, so the binding is not
@@ -106,6 +108,25 @@ def extra_cases(tier, rng):
             steps.append(frame(raw(pads=ps)))
         yield (scenario(menu, [0], cfg, steps), 'consuming-per-gamepad')
 
+def mouse_combo_cases(tier, rng):
+    # (c) CONSUMING actions on mouse inputs that need modifier keys (Ctrl+click, Shift+wheel, Alt+motion) above, listeners
+    # on keyboard / mouse combinations with the same and with other modifiers below: what is consumed (the button / wheel /
+    # motion and the modifier keys of the combination) is hidden for the rest of that frame only
+    for _ in range(80 if tier == 'thorough' else 16):
+        ids = Ids()
+        top = [mbutton(0, CONTROL), wheel(SHIFT), motion(ALT)]
+        rng.shuffle(top)
+        hi = spec([action(ids, aid(j % 4, 0, True, False), [bind(ids, inp, [PROBE], [])]) for j, inp in enumerate(top[:rng.randint(1, 3)])])
+        low = [key(1, CONTROL), key(2, SHIFT), key(3, ALT), mbutton(1, CONTROL), mbutton(0, CONTROL), wheel(SHIFT), key(1), key(2, CONTROL | SHIFT)]
+        lo = spec([action(ids, aid(j % 4, 1 + j // 4, rng.random() < .25, False), [bind(ids, inp, [PROBE], [])]) for j, inp in enumerate(low)])
+        cfg = {(0, 0): hi, (3, 0): lo}
+        steps = [sop(spawn(0, [0, 3])), frame(raw())]
+        for _ in range(12):
+            steps.append(frame(raw(keys=[k for k in [1, 2, 3] if rng.random() < .6] + [k for k in [100, 102, 103, 104] if rng.random() < .6],
+                                   mbuttons=[b_ for b_ in [0, 1] if rng.random() < .5],
+                                   motion=(rng.choice([F(0), F(1)]), rng.choice([F(0), F(-1, 2)])), wheel=(F(0), rng.choice([F(0), F(0), F(1)]))), how=rng.randrange(3)))
+        yield (scenario([0, 3], [0], cfg, steps), 'consuming-mouse-combinations')
+
 def nontrivial(case, out):
     return 'VB true' in out or 'V1 1' in out or 'V2 ' in out
 
@@ -114,7 +135,7 @@ STAGES = [dict(name='reads', mode='app', coq='Check.C15c', cases=cases, nontrivi
                rule='real contexts with non-consuming actions and a probe modifier on every binding; input through the real Bevy input resources/events. '
                     'Keyboard key and mouse button under all 16 modifier masks x subsets of the eight modifier keys (all 256 in thorough, 96 sampled in quick) x bound key up/down x an unrelated key up/down; '
                     'mouse motion and wheel under masks with quiet frames, three injection modes; unrestricted and single-gamepad contexts side by side with 1-3 gamepads disappearing and new ones connecting into the freed entity slot, '
-                    'axis values in [-1,1], at most one gamepad non-zero per axis; contexts created while part of a key combination is down; consuming actions in contexts tied to different gamepads. non-trivial = some binding reads active; distinct = distinct scenario text')]
+                    'axis values in [-1,1], at most one gamepad non-zero per axis; contexts created while part of a key combination is down; consuming actions in contexts tied to different gamepads; consuming actions on mouse inputs with modifier keys (Ctrl+click, Shift+wheel, Alt+motion) above listeners on keyboard and mouse combinations. non-trivial = some binding reads active; distinct = distinct scenario text')]
 CLAUSES = {1: 'a keyboard binding read differs from "key down and, for every required modifier, left or right variant down"',
            2: 'a mouse binding read differs from its specification (button / accumulated motion / wheel under the modifier mask)',
            3: 'a gamepad binding read differs from its specification (single gamepad only; any gamepad: button on any, first non-zero axis)',
@@ -124,4 +145,4 @@ CLAUSES = {1: 'a keyboard binding read differs from "key down and, for every req
 def describe(stage, clause): return CLAUSES.get(clause, 'clause %d' % clause)
 def matches_known(k, case, verdict): return False
 TRUSTED = TRUSTED_BASE + ['Bevy ButtonInput / AccumulatedMouseMotion / Gamepad modelled as sets and maps']
-ASSUMES = ['no UI interaction in this profile; consuming actions only in the per-gamepad family (judged by the consumption-aware judgement)', 'at most one gamepad reports a non-zero value per axis for unrestricted contexts (the property claims nothing else)']
+ASSUMES = ['no UI interaction in this profile; consuming actions only in the per-gamepad and mouse-combination families (judged by the consumption-aware judgement)', 'at most one gamepad reports a non-zero value per axis for unrestricted contexts (the property claims nothing else)']
